@@ -1,60 +1,104 @@
 (* C40 Bulk-ingestion paths are equivalent to plain puts.
    Model: Model/Bulk.v (begin_batch / end_batch / PutManyOpts as state, ensure_wal_capacity,
-   commit_from_records, commit_skip_indexes(_inner), finalize_indexes, rebuild_indexes, Drop / open /
-   recover_wal) on top of the frame-table model Model/Store.v; reference: Model/BulkSpec.v (the
-   reference table of Model/StoreSpec.v for the documents, with the full indexes of that table);
-   proofs: Proofs/BulkProofs.v (reusing Proofs/StoreProofs.v).
+   commit_from_records (= recover_wal), commit_skip_indexes(_inner) AS REPAIRED by ed861c9,
+   finalize_indexes, rebuild_indexes, Drop / open) on top of the frame-table model Model/Store.v;
+   reference: Model/BulkSpec.v (the reference table of Model/StoreSpec.v for the documents, with the
+   full indexes of that table); proofs: Proofs/BulkProofs.v (reusing Proofs/StoreProofs.v).
 
    What a reader sees (bview): the exposed frame table (ids, uris, CONTENT TAGS, roles, status, chunk
    parents), the timestamps, the timeline (time index), the documents of the lexical engine, the
    documents of the vector index.  spec_view ds is what plain acknowledged puts of the documents ds
    give.  Oracle inputs (whether a put ended with an automatic checkpoint and how many lex records it
-   wrote, whether the log region grew, lex records of a commit) are universally quantified: the
-   theorems hold for EVERY timing of them, separately on each path.
+   wrote, whether the log region grew, lex records of a commit / finalize) are universally
+   quantified: the theorems hold for EVERY timing of them, separately on each path.  No hypothesis
+   on the documents: an empty embedding vector is no embedding (eff_emb, fix 564c799).
 
-   The vector half of the property is REFUTED for commit_skip_indexes + finalize_indexes (known
-   finding F-C40-1, class skip-commit-drops-embeddings): commit_skip_indexes_inner drops the
-   IngestionDelta returned by apply_records, and with it inserted_embeddings; finalize_indexes calls
-   rebuild_indexes(&[], &[]) which rebuilds the vector index from the in-memory index alone. *)
+   History: before ed861c9 commit_skip_indexes_inner dropped the IngestionDelta and with it the
+   embeddings of the batch (finding F-C40-1, now fixed: C40_skip_commit_unfixed_dropped_embeddings).
+
+   Remaining boundary, stated below as a theorem pair: between commit_skip_indexes and the next
+   finalize_indexes the indexes of the batch exist IN MEMORY ONLY (the log records are checkpointed,
+   the manifests cleared).  Closing -- or crashing -- and reopening the memory inside that window
+   loses the embeddings of the batch for good (C40_reopen_inside_window_loses_embeddings); frames,
+   contents, timeline and lexical index are still restored by finalize_indexes
+   (C40_finalize_restores_lexical_any_history).  The property's paths never reopen inside the window;
+   `scan false ops = Some false` says exactly that (and that the history ended outside the window). *)
 From MV Require Import Base.Prelude Model.Store Model.StoreSpec Model.VecStore Model.Timeline Model.Bulk Model.BulkSpec Proofs.StoreProofs Proofs.BulkProofs.
 Local Open Scope N_scope.
 
-(* (1) begin_batch / end_batch, for ALL document lists, ALL PutManyOpts (skip_sync, disable_auto_checkpoint,
-   compression_level, wal_pre_size_bytes), both orders of end_batch / commit, and every timing of
-   automatic checkpoints and log growth on either path: the batch path shows exactly what plain puts +
-   commit show -- frames, content tags, timestamps, timeline, engine documents, vector documents. *)
-Theorem C40_batch_equals_plain :
-  forall (o : opts) (xs ys : list pdoc) (end_first : bool) (e1 : N) (g1 : option N) (e2 : N) (g2 : option N),
-    map pd_doc xs = map pd_doc ys -> forallb doc_ok (map pd_doc xs) = true ->
-    bview (bfinal (batch_path o ys end_first e2 g2)) = bview (bfinal (plain_path xs e1 g1)).
-Proof. exact batch_equals_plain. Qed.
-Print Assumptions C40_batch_equals_plain.
+(* (1) LEADING THEOREM.  For ALL document lists: the same documents ingested
+     - inside begin_batch / end_batch with ANY PutManyOpts (skip_sync, disable_auto_checkpoint,
+       compression_level, wal_pre_size_bytes), end_batch before or after the commit,
+     - or in ANY segmentation with commit_skip_indexes after each segment, then finalize_indexes,
+   show exactly what plain puts + commit show: frames, content tags, timestamps, timeline, engine
+   documents AND vector documents -- for every timing of automatic checkpoints and log growth on each
+   path.  No known class. *)
+Theorem C40_bulk_equals_plain :
+  forall (o : opts) (xs ys : list pdoc) (segs : list (list pdoc)) (end_first : bool)
+         (e1 : N) (g1 : option N) (e2 : N) (g2 : option N) (e3 : N) (g3 : option N),
+    map pd_doc ys = map pd_doc xs -> map pd_doc (concat segs) = map pd_doc xs ->
+    bview (bfinal (batch_path o ys end_first e2 g2)) = bview (bfinal (plain_path xs e1 g1)) /\
+    bview (bfinal (skip_path segs e3 g3)) = bview (bfinal (plain_path xs e1 g1)).
+Proof. exact three_paths_equal. Qed.
+Print Assumptions C40_bulk_equals_plain.
 
-(* (2) more generally: ANY history over put / begin_batch / end_batch / commit / finalize_indexes /
-   close+reopen (begin / end / commit / reopen at arbitrary positions, nested or unbalanced), once only
-   lex records are pending, shows what plain puts of its documents show ... *)
-Theorem C40_history_without_skip_is_plain :
+(* (2) ... and this also holds after closing and reopening each of the three memories *)
+Theorem C40_bulk_equals_plain_reopened :
+  forall (o : opts) (xs ys : list pdoc) (segs : list (list pdoc)) (end_first : bool)
+         (e1 : N) (g1 : option N) (e2 : N) (g2 : option N) (e3 : N) (g3 : option N) (r1 r2 r3 : N),
+    map pd_doc ys = map pd_doc xs -> map pd_doc (concat segs) = map pd_doc xs ->
+    bview (bfinal (batch_path o ys end_first e2 g2 ++ [BReopen r2])) = bview (bfinal (plain_path xs e1 g1 ++ [BReopen r1])) /\
+    bview (bfinal (skip_path segs e3 g3 ++ [BReopen r3])) = bview (bfinal (plain_path xs e1 g1 ++ [BReopen r1])).
+Proof. exact three_paths_equal_reopened. Qed.
+Print Assumptions C40_bulk_equals_plain_reopened.
+
+(* (3) the skip path inside begin_batch / end_batch (end_batch before or after finalize_indexes) *)
+Theorem C40_skip_inside_batch_equals_plain :
+  forall (o : opts) (segs : list (list pdoc)) (end_first : bool) (e : N) (g : option N),
+    bview (bfinal (BBegin o :: skip_body segs ++ (if end_first then [BEnd; BFinalize e g] else [BFinalize e g; BEnd])))
+    = spec_view (map pd_doc (concat segs)).
+Proof. exact skip_in_batch_view. Qed.
+Print Assumptions C40_skip_inside_batch_equals_plain.
+
+(* (4) the general statement behind (1)-(3): ANY history over put / begin_batch / end_batch / commit /
+   commit_skip_indexes / finalize_indexes / close+reopen -- markers and commits at arbitrary positions,
+   nested or unbalanced -- that never reopens between a commit_skip_indexes and the following
+   finalize_indexes and ends outside that window, once only lex records are pending, shows what plain
+   puts of its documents show ... *)
+Theorem C40_any_history_is_plain :
   forall ops : list bop,
-    existsb is_skip ops = false -> forallb op_ok ops = true ->
+    scan false ops = Some false ->
     delta_nonempty (pending (base (bfinal ops))) = false ->
     bview (bfinal ops) = spec_view (docs_of_ops ops).
-Proof. exact noskip_view. Qed.
-Print Assumptions C40_history_without_skip_is_plain.
+Proof. exact bulk_view. Qed.
+Print Assumptions C40_any_history_is_plain.
 
-(* ... and also after close + reopen (Drop commits what is pending, open reloads the persisted indexes) *)
-Theorem C40_history_without_skip_reopened :
+(* ... also after close + reopen, whatever was pending at the close *)
+Theorem C40_any_history_reopened :
   forall (ops : list bop) (e : N),
-    existsb is_skip ops = false -> forallb op_ok ops = true ->
+    scan false ops = Some false ->
     bview (bfinal (ops ++ [BReopen e])) = spec_view (docs_of_ops ops).
-Proof. exact noskip_view_reopened. Qed.
-Print Assumptions C40_history_without_skip_reopened.
+Proof. exact bulk_view_reopened. Qed.
+Print Assumptions C40_any_history_reopened.
 
-(* (3) commit_skip_indexes ... finalize_indexes, frames / contents / timeline / lexical half: after ANY
-   history (any mix of puts, batch markers, commit_skip_indexes, commits, reopens -- in particular puts
-   with commit_skip_indexes in between) with no frame record pending, finalize_indexes leaves exactly
-   the frame table, timestamps, timeline and engine documents of plain puts.  Partial: the vector
-   documents are not in this statement (see (5)). *)
-Theorem C40_skip_finalize_equals_plain_partial :
+(* (5) inside the window too, the IN-MEMORY vector index (what a live search_vec scans) already holds
+   every committed embedding: the repair of ed861c9 *)
+Theorem C40_vector_index_complete_in_memory :
+  forall (ops : list bop) (w : bool),
+    scan false ops = Some w -> vec_full (finf (bfinal ops)) = docs_of (vidx (ix (bfinal ops))).
+Proof. exact vector_live_any_window. Qed.
+Print Assumptions C40_vector_index_complete_in_memory.
+
+(* (6) the exposed frames never depend on the path at all: for EVERY history over the whole alphabet
+   (reopen inside the window included) the exposed table is the reference table of its documents *)
+Theorem C40_frames_any_history :
+  forall ops : list bop, view (base (bfinal ops)) = ref_table (docs_of_ops ops).
+Proof. intros ops. exact (J_view _ _ (A_J _ _ (A_final ops))). Qed.
+Print Assumptions C40_frames_any_history.
+
+(* (7) and after ANY history with no frame record pending, finalize_indexes restores the frame table,
+   timestamps, timeline and engine documents of plain puts, live and after reopen *)
+Theorem C40_finalize_restores_lexical_any_history :
   forall (ops : list bop) (e : N) (g : option N),
     let s := bfinal ops in let ds := docs_of_ops ops in
     delta_nonempty (pending (base s)) = false ->
@@ -63,10 +107,9 @@ Theorem C40_skip_finalize_equals_plain_partial :
     timeline_ids s' = map snd (tix_full (ref_table ds) (ref_infos ds)) /\
     lex (ix s') = lex_full (ref_table ds) (ref_infos ds) /\ Settled s'.
 Proof. exact finalize_lexical. Qed.
-Print Assumptions C40_skip_finalize_equals_plain_partial.
+Print Assumptions C40_finalize_restores_lexical_any_history.
 
-(* ... and after close + reopen *)
-Theorem C40_skip_finalize_reopened_partial :
+Theorem C40_finalize_restores_lexical_reopened :
   forall (ops : list bop) (e : N) (g : option N) (e2 : N),
     let s := bfinal ops in let ds := docs_of_ops ops in
     delta_nonempty (pending (base s)) = false ->
@@ -75,42 +118,34 @@ Theorem C40_skip_finalize_reopened_partial :
     timeline_ids s' = map snd (tix_full (ref_table ds) (ref_infos ds)) /\
     lex (ix s') = lex_full (ref_table ds) (ref_infos ds).
 Proof. exact finalize_lexical_reopened. Qed.
-Print Assumptions C40_skip_finalize_reopened_partial.
+Print Assumptions C40_finalize_restores_lexical_reopened.
 
-(* (4) the exposed frames never depend on the path at all: for EVERY history over the whole alphabet the
-   exposed table is the reference table of its documents (commit_skip_indexes included) *)
-Theorem C40_frames_any_history :
-  forall ops : list bop, view (base (bfinal ops)) = ref_table (docs_of_ops ops).
-Proof. intros ops. exact (J_view _ _ (A_J _ _ (A_final ops))). Qed.
-Print Assumptions C40_frames_any_history.
-
-(* (5) vector half: REFUTED.  One document with an embedding, commit_skip_indexes, finalize_indexes:
-   the vector index is empty, live and after reopen; plain put + commit holds the document. *)
+(* (8) THE BOUNDARY.  One embedded put, commit_skip_indexes, close + reopen, finalize_indexes: the
+   frame is there, the vector index is empty, and stays empty.  The hypothesis of (4) is necessary:
+   scan says None for this history.  (A process crash in the window behaves like the close: after
+   commit_skip_indexes nothing is pending in the log and the manifest holds no data pointer.) *)
 Definition e1 : emb := [1065353216; 0; 0; 1065353216].   (* 1.0 0.0 0.0 1.0 *)
 Definition wdoc : doc := mkDoc None 1000 0 1700000000%Z true [] (Some e1) false.
 Definition vec_view (s : bst) : docs := docs_of (vidx (ix s)).
+Definition window_reopen : list bop := [BPut wdoc None None; BSkip; BReopen 0; BFinalize 1 None].
 
-Theorem C40_vector_equivalence_refuted :
-  exists (xs : list pdoc) (e : N),
-    forallb doc_ok (map pd_doc xs) = true /\
-    vec_view (bfinal (skip_path [xs] e None)) <> vec_view (bfinal (plain_path xs e None)) /\
-    vec_view (bfinal (skip_path [xs] e None ++ [BReopen 0])) <> vec_view (bfinal (plain_path xs e None ++ [BReopen 0])) /\
-    known_class (skip_path [xs] e None) = true.
-Proof. exists [(wdoc, None, None)], 1. vm_compute. repeat split; discriminate. Qed.
-Print Assumptions C40_vector_equivalence_refuted.
+Theorem C40_reopen_inside_window_loses_embeddings :
+  scan false window_reopen = None /\
+  view (base (bfinal window_reopen)) = ref_table [wdoc] /\
+  vec_view (bfinal window_reopen) = [] /\ vec_full (ref_infos [wdoc]) = [(0, e1)] /\
+  vec_view (bfinal (window_reopen ++ [BReopen 0])) = [] /\
+  (* without the reopen the same history is fine *)
+  vec_view (bfinal [BPut wdoc None None; BSkip; BFinalize 1 None]) = [(0, e1)].
+Proof. vm_compute. repeat split. Qed.
+Print Assumptions C40_reopen_inside_window_loses_embeddings.
 
-(* (6) outside the known class (the history uses commit_skip_indexes AND has a put with an embedding)
-   the vector index is exactly (frame, embedding given to it) in frame order, for every history over
-   the whole alphabet *)
-Theorem C40_vector_outside_known :
-  forall ops : list bop,
-    known_class ops = false -> forallb op_ok ops = true ->
-    delta_nonempty (pending (base (bfinal ops))) = false ->
-    vec_view (bfinal ops) = vec_full (ref_infos (docs_of_ops ops)).
-Proof. exact vector_outside_known. Qed.
-Print Assumptions C40_vector_outside_known.
+(* (9) historical: the skip commit as it was before ed861c9 dropped the embeddings of the batch *)
+Theorem C40_skip_commit_unfixed_dropped_embeddings :
+  let s := fst (bstep bst0 (BPut wdoc None None)) in
+  vec_view (finalize (commit_skip_unfixed s) 1) = [] /\ vec_view (finalize (commit_skip s) 1) = [(0, e1)].
+Proof. vm_compute. split; reflexivity. Qed.
 
-(* (7) wal_pre_size_bytes: ensure_wal_capacity never shrinks the log, reaches min_bytes, and when it
+(* (10) wal_pre_size_bytes: ensure_wal_capacity never shrinks the log, reaches min_bytes, and when it
    changes the size the new size is the next power of two of min_bytes; shift_data_for_wal_growth +
    adjust_offsets_after_wal_growth keep every frame on its own payload extent *)
 Theorem C40_ensure_wal_capacity :
@@ -125,27 +160,27 @@ Theorem C40_shift_keeps_payloads :
 Proof. exact shift_adjust_owner. Qed.
 Print Assumptions C40_shift_keeps_payloads.
 
-(* ---- non-vacuity: three documents (one chunked into 2 frames, one embedded, one instant-indexed, an
-   automatic checkpoint in the middle of the plain path, out-of-order timestamps) through the three
-   paths; the hypotheses hold; plain and batch show the same view; the skip path differs exactly in the
-   vector documents ---- *)
+(* ---- non-vacuity: four documents (one chunked into 2 frames, one embedded, one instant-indexed, one
+   with an EMPTY embedding vector; an automatic checkpoint in the middle of the plain path; ties and
+   out-of-order timestamps) through the three paths: the hypotheses hold, all three views are equal and
+   are the expected ones ---- *)
 Definition d1 : doc := mkDoc (Some 1) 1000 2 1700000500%Z true [true; false] None false.
 Definition d2 : doc := mkDoc None 2000 0 1700000100%Z true [] (Some e1) false.
 Definition d3 : doc := mkDoc None 3000 0 1700000100%Z false [] None true.
-Definition xs_plain : list pdoc := [(d1, Some 1, None); (d2, None, Some 131072); (d3, None, None)].
-Definition xs_batch : list pdoc := [(d1, Some 1, None); (d2, None, None); (d3, Some 1, None)].
+Definition d4 : doc := mkDoc None 4000 0 1700000900%Z true [] (Some []) false.
+Definition xs_plain : list pdoc := [(d1, Some 1, None); (d2, None, Some 131072); (d3, None, None); (d4, None, None)].
+Definition xs_batch : list pdoc := [(d1, Some 1, None); (d2, None, None); (d3, Some 1, None); (d4, None, None)].
+Definition segs_skip : list (list pdoc) := [[(d1, None, None)]; [(d2, None, None); (d3, None, None)]; [(d4, None, None)]].
 Definition o1 : opts := mkOpts true true 1%Z 100000.
 
 Example C40_nonvacuous :
-  map pd_doc xs_plain = map pd_doc xs_batch /\ forallb doc_ok (map pd_doc xs_plain) = true /\
-  bview (bfinal (plain_path xs_plain 1 None)) = bview (bfinal (batch_path o1 xs_batch false 1 None)) /\
+  map pd_doc xs_batch = map pd_doc xs_plain /\ map pd_doc (concat segs_skip) = map pd_doc xs_plain /\
+  bview (bfinal (batch_path o1 xs_batch false 1 None)) = bview (bfinal (plain_path xs_plain 1 None)) /\
+  bview (bfinal (skip_path segs_skip 1 None)) = bview (bfinal (plain_path xs_plain 1 None)) /\
+  bview (bfinal (skip_path segs_skip 1 None ++ [BReopen 0])) = bview (bfinal (plain_path xs_plain 1 None)) /\
   snd (bview (bfinal (plain_path xs_plain 1 None))) = [(3, e1)] /\
-  snd (fst (bview (bfinal (plain_path xs_plain 1 None)))) = [0; 1; 3] /\
-  snd (fst (fst (bview (bfinal (plain_path xs_plain 1 None))))) = [3; 4; 0] /\
+  snd (fst (bview (bfinal (plain_path xs_plain 1 None)))) = [0; 1; 3; 5] /\
+  snd (fst (fst (bview (bfinal (plain_path xs_plain 1 None))))) = [3; 4; 0; 5] /\
   wal_size (bat (bfinal (batch_path o1 xs_batch false 1 None))) = 131072 /\
-  fst (bview (bfinal (skip_path [[(d1, None, None)]; [(d2, None, None); (d3, None, None)]] 1 None)))
-    = fst (bview (bfinal (plain_path xs_plain 1 None))) /\
-  snd (bview (bfinal (skip_path [[(d1, None, None)]; [(d2, None, None); (d3, None, None)]] 1 None))) = [] /\
-  delta_nonempty (pending (base (bfinal (flat_map (fun xs => put_ops xs ++ [BSkip]) [[(d1, None, None)]; [(d2, None, None); (d3, None, None)]])))) = false /\
-  known_class (plain_path xs_plain 1 None) = false /\ known_class (batch_path o1 xs_batch false 1 None) = false.
+  scan false (skip_path segs_skip 1 None) = Some false /\ scan false (skip_body segs_skip) = Some true.
 Proof. vm_compute. repeat split. Qed.
